@@ -37,10 +37,11 @@ Proof.
 Qed.
 
 (* opening: at most 12 calls whatever fails, and the result is mapped or parked *)
-Theorem rotate1_total : forall p day sd fs,
-  let '(o, n, _) := rotate1 p day sd fs in (n <= 12)%nat /\ (o = Mapped \/ o = Parked).
+Theorem rotate1_total : forall p day sd mode fs,
+  let '(o, n, _) := rotate1 p day sd mode fs in (n <= 12)%nat /\ (o = Mapped \/ o = Parked).
 Proof.
-  intros p day sd fs. unfold rotate1.
+  intros p day sd mode fs. unfold rotate1.
+  destruct (mode_off mode); [split; [lia|auto]|].
   pose proof (week_end_total p day sd 0 fs) as W.
   destruct (week_end p day sd 0 fs) as [[o i] fs1]. destruct W as [Wi Wo].
   destruct o; try (split; [lia|auto]); [|congruence].
@@ -54,12 +55,12 @@ Theorem extend_total : forall p i, (i + 1 <= snd (extend p i) <= i + 6)%nat.
 Proof. intros p i. unfold extend. split_fails; cbn [snd]; lia. Qed.
 
 (* the whole scenario: at most 18 calls *)
-Theorem scenario_total : forall p day sd fs,
-  let '(o, i, ok, n) := scenario p day sd fs in
+Theorem scenario_total : forall p day sd mode fs,
+  let '(o, i, ok, n) := scenario p day sd mode fs in
   (i <= 12 /\ n <= 18 /\ i <= n)%nat /\ (o = Mapped \/ o = Parked) /\ (ok = true -> o = Mapped).
 Proof.
-  intros p day sd fs. unfold scenario.
-  pose proof (rotate1_total p day sd fs) as R. destruct (rotate1 p day sd fs) as [[o i] fs1]. destruct R as [Ri Ro].
+  intros p day sd mode fs. unfold scenario.
+  pose proof (rotate1_total p day sd mode fs) as R. destruct (rotate1 p day sd mode fs) as [[o i] fs1]. destruct R as [Ri Ro].
   destruct o.
   - pose proof (extend_total p i) as E. destruct (extend p i) as [ok j]. cbn [snd] in E.
     split; [lia|]. split; [auto|]. auto.
